@@ -27,6 +27,14 @@ CLAIMED = {
             'All Length/data pairs reachable in header, body, trailer and groups with contents over all 256 byte values (SOH, =, NUL, checksum look-alikes), '
             'lengths 0..2047; decode of the reference encoding, library encode, re-encode.',
             'Messages are kept below 7000 bytes (the encoder buffer limit is C03\'s subject).', '4/C06'),
+    'C10': ('E1', 'exploration', 'exhaustive enumeration per realm field + property-based testing (Hypothesis) against a linear-scan membership oracle',
+            'For every realm field of both schemas: all chars, int windows, string near-misses (prefixes, extensions, case flips, all strings <= 2 chars), '
+            'float neighbours enumerated completely; random values on top. Index, description, is_valid and the printed line are compared with set membership / range inclusion.',
+            'Stock schemas contain set realms only for char/string/int; range realms are exercised through C13-generated schemas.', '4/C10'),
+    'C12': ('E1', 'exploration', 'exhaustive key enumeration vs linear-scan oracle + model-based operation sequences (Hypothesis) on presorted_set',
+            'find_be, trait-set lookups for all 65536 tags, message/reverse tables with near-miss keys are enumerated completely; presorted_set (generic and '
+            'FieldTrait specialisation) is driven by generated insert/find/at/clear/copy sequences against a Python sorted list, checked after every step.',
+            'Only insert().second, find results, at() and iteration contents are asserted.', '4/C12'),
     'C11': ('E1', 'exploration', 'property-based testing (Hypothesis) with differential oracle: clone/copy_legal/move_legal results vs reference encoding',
             'clone(), copy_legal and move_legal results of generated messages (nested groups included) each encode to the reference bytes; source destroyed under ASan after move.',
             'Each object is encoded once.', '4/C11'),
